@@ -12,6 +12,9 @@ use avra_lib::{
 
 use std::path::Path;
 
+#[cfg(avra_verif)]
+use avra_lib::vmap_btreeset as btreeset;
+#[cfg(not(avra_verif))]
 use maplit::btreeset;
 use structopt::StructOpt;
 
